@@ -750,7 +750,6 @@ func checkWatcherStopped(c *core.Ctx) {
 	}
 }
 
-
 // blocksOf lists every statement list (with its statements) nested in n.
 func blocksOf(n ast.Node) []*ast.BlockStmt {
 	var out []*ast.BlockStmt
